@@ -23,6 +23,10 @@ MOD = 'portfolio::bookkeeping::costs::'
 DAY = MOD + 'MaxSingleDayCosts'
 
 
+def truth_edge(vals, neg):
+    return (vals != [0]) if vals is not None else (0 in (neg or []))
+
+
 def run(prog, rep, tier='quick', config='default'):
     fns = [f for f in prog.product_fns() if f.name.startswith(MOD)]
     if not rep.anchor('module portfolio::bookkeeping::costs', fns):
@@ -138,6 +142,106 @@ def run(prog, rep, tier='quick', config='default'):
         else:
             rep.violation('R17c', 'row-total-kept-equal-to-the-sum', where=ob.where(tot[0]), fn=ob.name,
                           detail='the row total is not updated as (total - old + new): it would drift from the sum of the securities\' figures')
+
+    # ------------------------------------------------------------------ R17f: what is carried forward is the closing cost, not the day maximum
+    maxfield = None
+    if ins:
+        for (of, fl) in mir.provenance(ob, ins[0].args[0]).fields:
+            if of == DAY:
+                maxfield = fl
+    carry = []
+    for c in ps.calls:
+        if c.short != 'insert' or ps.loop_of(c.bb) is None:
+            continue
+        if not re.search(r'^&mut std::collections::HashMap<std::string::String, util::decimal::ConstrainedDecimal', ps.ty.get(c.arg_local(0), '')):
+            continue
+        o = mir.provenance(ps, c.args[0])
+        if any(of == DAY for (of, fl) in o.fields):
+            continue        # a map inside the day record, not the carry map
+        root = mir.nearest_user_local(ps, c.args[0])
+        if root is not None and not ps.is_param(root):
+            carry.append(c)
+    if not carry or maxfield is None:
+        rep.violation('R17f', 'anchor-lost:carry-forward-map', fn=ps.name,
+                      detail='anchor lost: the per-security map that carries a cost base forward to days without a transaction')
+    for n, c in enumerate(carry, 1):
+        o = mir.provenance(ps, c.args[-1], follow_all_call_args=True)
+        k = 'carried-figure-is-the-closing-cost#%d' % n
+        if any(of == DAY and fl == maxfield for (of, fl) in o.fields) or o.has_call(r'Decimal::max$|cmp::Ord::max$|cmp::max$'):
+            rep.violation('R17f', k, where=c.where(), fn=ps.name,
+                          detail='the figure carried forward to later days is read from %s.%s, the day\'s *maximum*: a security bought and sold '
+                                 'down on one day keeps showing that day\'s peak on every later row instead of its cost base after its most recent '
+                                 'transaction' % (short(DAY), maxfield))
+        else:
+            rep.ok('R17f', k, where=c.where(), fn=ps.name,
+                   detail='the carried figure does not pass through the per-day maximum (%s.%s)' % (short(DAY), maxfield))
+
+    # ------------------------------------------------------------------ R17g: the cost pass sees every delta (others are *listed* as ignored there)
+    FILTERS = {'filter', 'filter_map', 'retain', 'retain_mut', 'take', 'take_while', 'skip', 'skip_while', 'step_by', 'dedup', 'dedup_by',
+               'dedup_by_key', 'truncate', 'drain', 'split_off', 'pop', 'remove', 'swap_remove', 'map_while', 'find', 'last', 'nth'}
+    entry = [f for f in fns if f.kind in ('Fn', 'AssocFn') and any(c.callee == ps.name for c in f.calls)]
+    tops = entry or [ps]
+    feed_sites = []
+    for top in tops:
+        for c in prog.callers.get(top.name, []):
+            if mir.is_testsupport(c.fn.name) or c.fn.name.startswith(MOD):
+                continue
+            feed_sites.append(c)
+    if not feed_sites:
+        rep.violation('R17g', 'anchor-lost:cost-table-caller', detail='anchor lost: no product caller hands a delta list to the cost tables')
+    for n, c in enumerate(feed_sites, 1):
+        f = c.fn
+        root = mir.nearest_user_local(f, c.args[0])
+        k = '%s|every-delta-reaches-the-cost-pass#%d' % (f.name.split('::{')[0], n)
+        if root is None:
+            rep.violation('R17g', k, where=c.where(), fn=f.name, detail='anchor lost: the delta list handed to the cost tables is not a local variable')
+            continue
+        bad = None
+        n_feed = 0
+        for x in f.calls:
+            if not x.args or mir.nearest_user_local(f, x.args[0]) != root or x is c:
+                continue
+            if x.short in FILTERS:
+                bad = (x, '%s() on the delta list' % x.short)
+            if x.short in ('append', 'extend', 'push', 'extend_from_slice') and len(x.args) > 1:
+                n_feed += 1
+                o = mir.provenance(f, x.args[1], follow_all_call_args=True)
+                fl = [y for y in o.calls if y.short in FILTERS and y.decl.startswith('std::')]
+                if fl:
+                    bad = (fl[0], 'the deltas added to the list pass through %s()' % fl[0].short)
+        if bad:
+            x, why = bad
+            rep.violation('R17g', k, where=x.where(), fn=f.name,
+                          detail='%s: transactions of other affiliates (or whatever else is dropped) never reach the cost pass, so they are neither '
+                                 'counted nor listed as ignored' % why)
+        elif n_feed == 0:
+            rep.violation('R17g', k, where=c.where(), fn=f.name, detail='anchor lost: nothing is appended to the delta list handed to the cost tables')
+        else:
+            rep.ok('R17g', k, where=c.where(), fn=f.name, detail='%d append/extend site(s) feed the list, none through a filtering adaptor' % n_feed)
+
+    # ------------------------------------------------------------------ R17h: the opening cost of a security is recorded once
+    OPEN_RX = r'HashMap<std::string::String, \(time::Date, util::decimal::ConstrainedDecimal'
+    opens = [c for c in ps.calls if c.short == 'insert' and re.search(OPEN_RX, ps.ty.get(c.arg_local(0), ''))]
+    if not opens:
+        rep.violation('R17h', 'anchor-lost:opening-cost-map', fn=ps.name, detail='anchor lost: the map holding each security\'s cost base before its first transaction')
+    for n, c in enumerate(opens, 1):
+        guarded = False
+        for (sbb, discr, vals, neg) in ps.conditions_at(c.bb):
+            d = mir.provenance(ps, discr, follow_all_call_args=True)
+            absent_edge = False
+            for x in d.calls:
+                if x.short == 'contains_key' and re.search(OPEN_RX, ps.ty.get(x.arg_local(0), '')):
+                    absent_edge = not truth_edge(vals, neg)
+                if x.short == 'get' and re.search(OPEN_RX, ps.ty.get(x.arg_local(0), '')) and ps._is_discr_of(discr, x.dst['l']):
+                    absent_edge = (vals == [0])
+            guarded = guarded or absent_edge
+        k = 'opening-cost-recorded-once#%d' % n
+        if guarded:
+            rep.ok('R17h', k, where=c.where(), fn=ps.name, detail='inserted only when the security has no entry yet')
+        else:
+            rep.violation('R17h', k, where=c.where(), fn=ps.name,
+                          detail='the entry holding a security\'s cost base before its first transaction is overwritten by later transactions: '
+                                 'rows before the first settlement show a later figure instead of the opening cost base')
 
     # ------------------------------------------------------------------ R17d: yearly table
     yearly = [f for f in fns if f.kind in ('Fn', 'AssocFn') and any(c.callee == 'time::Date::year' for c in f.calls) and
